@@ -40,6 +40,8 @@ var witnesses = []witness{
 	{id: m16.KFieldGrow, hist: &histCase{Cont: contSpec{Kind: "field", T: "Holder", Field: "Items", Init: m16.Zero(m16.TypeOf("Holder")).WithField("Items", m16.List(m16.NumI(1)))},
 		Steps: []step{{Op: "push", Val: jv(m16.JNum(2, "lit"))}}}},
 	{id: m16.KInt64Str, call: echo1("string", m16.JNum(-9223372036854775808, "go:int64"))},
+	{id: m16.KMapMethod, hist: &histCase{Cont: contSpec{Kind: "map", T: "Hdr", Init: m16.MapOf([]string{"a"}, []m16.GV{m16.Str("1")})},
+		Steps: []step{{Op: "set", Key: "Get", Val: jv(m16.JStr("x"))}}}},
 	{id: m16.KStoreFrac, hist: &histCase{Cont: contSpec{Kind: "map", T: "map[string]int", Init: m16.MapOf(nil, nil)},
 		Steps: []step{{Op: "set", Key: "c", Val: jv(m16.JNum(-1.5, "lit"))}}}},
 	{id: m16.KStoreBound, hist: &histCase{Cont: contSpec{Kind: "map", T: "map[string]int", Init: m16.MapOf(nil, nil)},
